@@ -131,6 +131,13 @@ func (o *operations) start() {
 	defer func() {
 		o.mu.Lock()
 		defer o.mu.Unlock()
+		if o.isClosed && o.ops.Len() != 0 {
+			// operations accepted before the queue was closed must still
+			// run; keep busyCh open so GracefulClose keeps waiting for them.
+			go o.start()
+
+			return
+		}
 		// this wil lbe the most recent busy chan
 		close(o.busyCh)
 
